@@ -76,10 +76,21 @@ def literal_programs():
     return out
 
 
+# an object mutated after it was stored as (part of) a map key: the documents say nothing, the reference semantics must not commit
+MUTATED_KEYS = [
+    "let obs = [];\nlet k = [1]; let m = map {k: 10}; k[0] = 2;\npush(obs, contains(m, [2]));\npush(obs, contains(m, [1]));\n0\n",
+    "let obs = [];\nlet k = [1]; let m = map {k: 10}; k[0] = 2; m[[2]] = 7;\npush(obs, len(m));\n0\n",
+    "let obs = [];\nlet k = [1]; let m = map {}; insert(m, k, 5); push(k, 3);\npush(obs, get(m, [1]));\n0\n",
+    "let obs = [];\nlet i = [1]; let k = [i]; let m = map {k: 1}; i[0] = 9;\npush(obs, get(m, [[9]]));\n0\n",
+    "let obs = [];\nlet k = [1]; let m = map {k: 10}; let f = fn() { k[0] = 2; }; f();\npush(obs, get(m, k));\n0\n",
+    "let obs = [];\nlet k = [1]; let m = map {k: 10};\npush(obs, m[[1]]);\npush(obs, m[k]);\n0\n",
+]
+
+
 def cases(ctx):
     out = []
     rng = ctx.rng
-    progs = literal_programs()
+    progs = literal_programs() + [("mutated-key", s) for s in MUTATED_KEYS]
     for (k, src), line in zip(progs, lang_lines(ctx, [p[1] for p in progs])):
         out.append(Case(line, ("map-literal",), extra={"src": src, "keys": k}))
     allk = KEYS + INVALID
